@@ -36,8 +36,10 @@ type SExpr struct {
 	C   int64  `json:"c,omitempty"`
 }
 
-// SCond: Op is "true", "false", "var" (the injected bool Var), or a comparison "==", "<", ">"
-// of the name Var with the constant C.
+// SCond: Op is "true", "false", "var" (the injected bool Var), a comparison "==", "<", ">"
+// of the name Var with the constant C, or "tick": a call of the injected function tick(), which
+// records observer event 99 and answers true, false, true, ... (a condition with a side effect:
+// how often and in which order conditions are evaluated becomes observable).
 type SCond struct {
 	Op  string `json:"op"`
 	Var string `json:"var,omitempty"`
@@ -178,6 +180,7 @@ type sInterp struct {
 	choices []int
 	points  []int // number of alternatives at every order choice met
 	probe   func(s *SStmt, defined []string)
+	ticks   int // calls of the tick() condition so far
 	// search bookkeeping (see sAll): states already seen at a free order choice, and the keys the
 	// enclosing forRange loops still have to visit (the only part of the continuation that is
 	// neither static nor stored in a local)
@@ -238,6 +241,10 @@ func (in *sInterp) cond(c *SCond) bool {
 		return in.get(c.Var) < c.C
 	case ">":
 		return in.get(c.Var) > c.C
+	case "tick":
+		in.out.Trace = append(in.out.Trace, SEvent{ID: 99})
+		in.ticks++
+		return in.ticks%2 == 1
 	}
 	in.fail("bad condition %q", c.Op)
 	return false
